@@ -68,7 +68,7 @@ RULE = ('(1) envelopes: every subset/order of the optional headers (PitToken of 
         'correspondence only); fragmented envelopes (also increasing-order ones carrying PitToken/Nack/later fields) around '
         'whole packets that would complete a pending Interest / reach a handler (must have no effect); '
         'each packet is delivered bare to one application and wrapped to an identical one (0..3 '
-        'pending Interests, 0..2 handlers) and the observable outcomes are compared. non-trivial = the case has a header, a '
+        'pending Interests, 0..2 handlers) and the observable outcomes are compared. Second hardening round: every well-formed envelope of (1) is also decoded from a bytearray / read-only / writable memoryview, as a bare value with with_tl=False, through the legacy helper parse_lp_packet and through parse_network_nack (same token / reason / enclosed packet, same rejection of fragments); enclosed packets, replies and Nacked Interests whose size takes the Length of the envelope across 253 and 65536; tokens and replies handed over as bytearray / memoryview; 3..5 Interests pending on one name (with and without implicit digest, CanBePrefix and exact) when the Nack arrives; envelopes delivered in a bytearray / memoryview. non-trivial = the case has a header, a '
         'token or a pending Interest; distinct = distinct cases')
 
 LP = 0x64
@@ -299,6 +299,14 @@ def cases(rng, tier):
     for _ in range(150 if quick else 3000):
         hs, tok = out_of_order_nack(rng, nack_value(rng, rng.choice(REASONS + [None])))
         yield {'k': 'lp', 'w': wrap(hs, rng.choice(nets)).hex(), 'spec': {'kind': 'ooo-nack'}}
+    # enclosed packets whose size takes the Length of the Fragment / of the envelope across 253 and 65536
+    for n in SIZES_253 + (SIZES_64K[::3] if quick else SIZES_64K):
+        blob = tlv(6, rand_bytes(rng, 8) + bytes(n - 8))
+        hs, tok = gen_ascending(rng, token='yes', subset=[0x62])
+        yield {'k': 'lp', 'w': wrap(hs, blob).hex(), 'spec': {'kind': 'plain', 'tok': tok.hex(), 'frag': blob.hex(), 'asc': True}}
+        reason = rng.choice(REASONS)
+        yield {'k': 'lp', 'w': wrap([[0x320, nack_value(rng, reason, extra=False)]], blob).hex(),
+               'spec': {'kind': 'nack', 'reason': reason, 'tok': None, 'frag': blob.hex(), 'asc': True}}
     for w in [b'', b'\x64', b'\x64\x00', tlv(LP, tlv(0x50, b'')), tlv(LP, tlv(0x320, b'')), tlv(LP, tlv(0x320, tlv(0x321, b''))),
               tlv(LP, tlv(0x320, tlv(0x321, b'\x00\x00\x00'))), tlv(LP, tlv(0x320, tlv(0x323, b'\x01')) + tlv(0x50, b'\x05\x00')),
               tlv(LP, tlv(0x62, b'\x01') + tlv(0x62, b'\x02') + tlv(0x50, b'\x05\x00')), tlv(5, b''), tlv(LP, tlv(0x50, b'\x05\x00')) + b'\x00',
@@ -309,6 +317,15 @@ def cases(rng, tier):
         yield {'k': 'nack', 'reason': reason, 'int': rng.choice([P['int'], P['int-cbp'], P['int-signed'], b'\x05\x00', b'']).hex()}
     for n in list(range(0, 41)) + [252, 253] + ([] if quick else [64, 300, 65536]):
         yield {'k': 'put', 'tok': rand_bytes(rng, n).hex(), 'data': rng.choice([P['data/a'], P['data-long'], b'\x06\x00', b'']).hex()}
+    # the same with the token / the reply handed over as bytearray or memoryview (what the context dict and make_data
+    # give an application), and replies / Nacked Interests whose size takes the envelope's Length across 253 and 65536
+    for n in (0, 1, 4, 8, 32):
+        for form in FORMS[1:]:
+            yield {'k': 'put', 'tok': rand_bytes(rng, n).hex(), 'data': rng.choice([P['data/a'], P['data-long'], b'\x06\x00']).hex(), 'form': form}
+    for n in SIZES_253 + (SIZES_64K[::3] if quick else SIZES_64K):
+        yield {'k': 'put', 'tok': rand_bytes(rng, rng.choice([0, 4, 8])).hex(), 'data': tlv(6, rand_bytes(rng, 8) + bytes(n - 8)).hex(),
+               'form': rng.choice(FORMS)}
+        yield {'k': 'nack', 'reason': rng.choice(REASONS), 'int': tlv(5, rand_bytes(rng, 8) + bytes(n - 8)).hex(), 'form': rng.choice(FORMS)}
     # (3) reply histories -----------------------------------------------------------------------
     import itertools
     for _ in range(150 if quick else 4000):
@@ -333,6 +350,10 @@ def cases(rng, tier):
                 i = can[0]
                 pending.remove(i)
                 evs.append(['r', i, rng.choice([P['data/a'], P['data/x'], b'\x06\x00', P['data-long']]).hex()])
+                if rng.random() < 0.3:
+                    evs[-1].append(rng.choice(FORMS[1:]))        # the reply is a bytearray / memoryview
+                if rng.random() < 0.04:
+                    evs[-1][2] = tlv(6, rand_bytes(rng, 8) + bytes(rng.choice(SIZES_253 + SIZES_64K[::4]) - 8)).hex()
         yield {'k': 'replies', 'evs': evs}
     if not quick:
         for perm in itertools.permutations(range(4)):
@@ -348,6 +369,12 @@ def cases(rng, tier):
                 pend.append({'n': '/a/b', 'cbp': False, 'dg': True})
             else:
                 pend.append({'n': rng.choice(c6.NAMES[:4]), 'cbp': rng.random() < 0.4, 'dg': False})
+        if ci % 5 == 4:
+            # a crowded name: 3..5 Interests pending on /a/b (with and without implicit digest, CanBePrefix and exact),
+            # sometimes one on the parent and one on a child as well
+            pend = [{'n': '/a/b', 'cbp': rng.random() < 0.5, 'dg': rng.random() < 0.35} for _ in range(rng.randint(3, 5))]
+            pend += [{'n': x, 'cbp': rng.random() < 0.7, 'dg': False} for x in ('/a', '/a/b/c') if rng.random() < 0.4]
+            rng.shuffle(pend)
         hand = rng.sample(['/a', '/a/b', '/h'], rng.choice([0, 1, 2]))
         pkts = []
         for _ in range(rng.randint(1, 4)):
@@ -400,7 +427,27 @@ def cases(rng, tier):
             else:
                 hs, tok = gen_headers(rng) if rng.random() < 0.65 else gen_ascending(rng)
                 pkts.append({'p': p.hex(), 'hdrs': hs_json(hs), 'nack': None})
-        yield {'k': 'recv', 'fe': fe, 'pend': pend, 'hand': hand, 'pkts': pkts}
+        case = {'k': 'recv', 'fe': fe, 'pend': pend, 'hand': hand, 'pkts': pkts}
+        if rng.random() < 0.2:
+            case['rx'] = rng.choice(FORMS[1:])          # the face hands the packets over in a bytearray / memoryview
+        yield case
+
+
+FORMS = ['bytes', 'ba', 'mv', 'rwmv']
+# sizes of an enclosed packet around the points where the Length of the Fragment / of the envelope needs 3 resp. 5 bytes
+SIZES_253 = [240, 244, 246, 247, 248, 249, 250, 251, 252, 253, 254, 255, 256]
+SIZES_64K = [65516, 65520, 65522, 65524, 65526, 65527, 65528, 65529, 65530, 65531, 65532, 65533, 65534, 65535, 65536, 65537, 65540]
+
+
+def as_form(b, form):
+    """the same bytes in another buffer class"""
+    if form in (None, 'bytes'):
+        return b
+    if form == 'ba':
+        return bytearray(b)
+    if form == 'mv':
+        return memoryview(b)
+    return memoryview(bytearray(b))
 
 
 def c6_uint(v, width=0):
@@ -457,6 +504,8 @@ def shrink(case):
                     out.append(['r', e[1] - (1 if e[1] > j else 0), e[2]])
             yield {'k': 'replies', 'evs': out}
     if k == 'recv':
+        if case.get('rx'):
+            yield {a: b for a, b in case.items() if a != 'rx'}
         for i in range(len(case['pkts'])):
             yield {**case, 'pkts': case['pkts'][:i] + case['pkts'][i + 1:]}
         for i in range(len(case['pend'])):
@@ -482,6 +531,31 @@ def lp_obs(w):
         return f'ok {nack}:{tok}:{frag}'
     except Exception as e:                 # noqa
         return 'err ' + c6.cls_name(type(e).__name__)
+
+
+def lp_alt(w):
+    """the same envelope through the other entry points of ndnlp_v2 and in the other buffer classes"""
+    from ndn import encoding as enc
+    from ndn.encoding import ndnlp_v2
+    out = {f: lp_obs(as_form(w, f)) for f in FORMS[1:]}
+    t = read_num(w, 0)
+    ln = read_num(w, t[1]) if t else None
+    if ln is not None:
+        try:
+            r = enc.parse_lp_packet_v2(w[ln[1]:], with_tl=False)
+            nack = '~' if r.nack is None else ('n' if r.nack.nack_reason is None else str(r.nack.nack_reason))
+            tok = '~' if r.pit_token is None else (bytes(r.pit_token).hex() or '-')
+            frag = '~' if r.fragment is None else (bytes(r.fragment).hex() or '-')
+            out['notl'] = f'ok {nack}:{tok}:{frag}'
+        except Exception as e:                 # noqa
+            out['notl'] = 'err ' + c6.cls_name(type(e).__name__)
+    for key, fn in (('v1', ndnlp_v2.parse_lp_packet), ('nn', ndnlp_v2.parse_network_nack)):
+        try:
+            reason, frag = fn(w, True)
+            out[key] = 'ok %s:%s' % ('~' if reason is None else reason, '~' if frag is None else (bytes(frag).hex() or '-'))
+        except Exception as e:                 # noqa
+            out[key] = 'err ' + c6.cls_name(type(e).__name__)
+    return out
 
 
 def run_replies(case):
@@ -511,7 +585,7 @@ def run_replies(case):
                 n0 = len(rig.face.sent)
                 box = {}
 
-                def call(i=e[1], d=bytes.fromhex(e[2])):
+                def call(i=e[1], d=as_form(bytes.fromhex(e[2]), e[3] if len(e) > 3 else None)):
                     box['r'] = closures[i][0](d)
                 try:
                     rig.loop.call_now(call)
@@ -579,7 +653,7 @@ def _one_run(case, wrapped):
                 w = p
             before = dict(outcomes)
             inv0, err0, s0 = len(invoked), len(loop.errors), len(rig.face.sent)
-            e = rig.deliver_await(w, c6.first_type(w))
+            e = rig.deliver_await(as_form(w, case.get('rx')), c6.first_type(w))
             loop.settle()
             rec = {'exc': None if e is None else c6.cls_name(type(e).__name__),
                    'bg': [c6.cls_name(x[0]) for x in loop.errors[err0:]],
@@ -603,16 +677,20 @@ def run_impl(case):
     from ndn import encoding as enc
     k = case['k']
     if k == 'lp':
-        return {'obs': lp_obs(bytes.fromhex(case['w']))}
+        r = {'obs': lp_obs(bytes.fromhex(case['w']))}
+        if case['spec'] is not None and case['spec']['kind'] != 'ooo-nack':
+            r['alt'] = lp_alt(bytes.fromhex(case['w']))
+        return r
     if k == 'nack':
         try:
-            return {'obs': 'ok ' + (bytes(enc.make_network_nack(bytes.fromhex(case['int']), case['reason'])).hex() or '-')}
+            return {'obs': 'ok ' + (bytes(enc.make_network_nack(as_form(bytes.fromhex(case['int']), case.get('form')), case['reason'])).hex() or '-')}
         except Exception as e:             # noqa
             return {'obs': 'err ' + c6.cls_name(type(e).__name__)}
     if k == 'put':
         with AppRig('v2') as rig:
             try:
-                rig.app._put_raw_packet_with_pit_token(bytes.fromhex(case['data']), bytes.fromhex(case['tok']))
+                rig.app._put_raw_packet_with_pit_token(as_form(bytes.fromhex(case['data']), case.get('form')),
+                                                       as_form(bytes.fromhex(case['tok']), case.get('form')))
                 return {'obs': 'ok ' + ','.join(x.hex() for x in rig.face.sent)}
             except Exception as e:         # noqa
                 return {'obs': 'err ' + c6.cls_name(type(e).__name__)}
@@ -712,8 +790,22 @@ def oracle(case, impl):
         o = impl['obs']
         if sp['kind'] == 'ooo-nack':
             return None
+        alt = impl.get('alt', {})
+        for f in FORMS[1:] + ['notl']:
+            if f in alt and alt[f].split(' ')[0] != o.split(' ')[0] or (o.startswith('ok ') and f in alt and alt[f] != o):
+                return (f"the envelope decodes differently {'as a bare value (with_tl=False)' if f == 'notl' else 'from a ' + f + ' buffer'}: "
+                        f"{alt[f][:60]} instead of {o[:60]}")
         if sp['kind'] == 'frag':
+            if 'v1' in alt and not alt['v1'].startswith('err '):
+                return 'a fragmented envelope (FragIndex/FragCount) was accepted by parse_lp_packet'
             return None if o.startswith('err ') else 'a fragmented envelope (FragIndex/FragCount) was accepted'
+        if 'v1' in alt:
+            # the legacy helper: (reason, enclosed packet); a Nack header without NackReason is a Nack with reason None (0)
+            want = ('~' if sp['kind'] == 'plain' else str(sp['reason'] or 0)) + ':' + (sp['frag'] or '-')
+            if alt['v1'] != 'ok ' + want:
+                return f"parse_lp_packet gives {alt['v1'][:60]} for an envelope with {'no Nack header' if sp['kind'] == 'plain' else 'Nack reason ' + str(sp['reason'])}"
+        if 'nn' in alt and sp['kind'] == 'nack' and alt['nn'] != 'ok ' + str(sp['reason'] or 0) + ':' + (sp['frag'] or '-'):
+            return f"parse_network_nack gives {alt['nn'][:60]} for a Nack envelope with reason {sp['reason']}"
         if not o.startswith('ok '):
             return f"a well-formed envelope ({sp['kind']}) was rejected with {o}"
         nack, tok, frag = o[3:].split(':')
@@ -847,6 +939,9 @@ def tags(case, impl):
         t.append('lp-result:' + impl['obs'].split(' ')[0] + ('' if impl['obs'].startswith('ok') else ':' + impl['obs'][4:]))
     elif k == 'put':
         t.append('toklen:%d' % (len(case['tok']) // 2))
+        t.append('put-form:' + case.get('form', 'bytes'))
+        if len(case['data']) // 2 >= 240:
+            t.append('put-size:' + ('64k' if len(case['data']) > 100000 else '253'))
     elif k == 'replies':
         t.append('interests:%d' % sum(1 for e in case['evs'] if e[0] == 'i'))
         t.append('replies:%d' % sum(1 for e in case['evs'] if e[0] == 'r'))
@@ -854,6 +949,10 @@ def tags(case, impl):
             t.append('replies:unknown-headers-before-token')
     elif k == 'recv':
         t.append(case['fe'] + ':pend%d:hand%d' % (len(case['pend']), len(case['hand'])))
+        if case.get('rx'):
+            t.append('rx:' + case['rx'])
+        if sum(1 for q in case['pend'] if q['n'] == '/a/b') >= 3:
+            t.append(case['fe'] + ':crowded-name')
         for pk, w in zip(case['pkts'], impl['wrapped']):
             t.append('pkt:' + ('nack' if pk['nack'] is not None else 'fragmented' if pk.get('frag') else
                                'out-of-order-nack' if pk.get('ooo') else 'wrapped') + ':hdrs%d' % min(len(pk['hdrs']), 6))
